@@ -28,7 +28,7 @@ use umharness::route_support::{server_config, upper, Arg, Delivery, Log, ProxyCf
 use umharness::util::*;
 use undermoon::broker::verif_export::store::MetaStore;
 use undermoon::common::cluster::{
-    ClusterName, MigrationMeta, MigrationTaskMeta, Proxy, Range, RangeList, SlotRange, SlotRangeTag,
+    ClusterName, MigrationMeta, MigrationTaskMeta, Proxy, Range, RangeList, Role, SlotRange, SlotRangeTag,
 };
 use undermoon::common::config::ClusterConfig;
 use undermoon::common::proto::{ClusterMapFlags, ProxyClusterMeta};
@@ -253,18 +253,21 @@ fn rl_text(rs: &Ranges) -> String {
     rs.iter().map(|(s, e)| format!("{}-{}", s, e)).collect::<Vec<_>>().join(",")
 }
 
+fn sr_text(sr: &SlotRange) -> String {
+    let base = format!("{}:{}", kind_of(sr), rl_text(&ranges_of(sr)));
+    match sr.tag.get_migration_meta() {
+        // the MigrationMeta is part of the task key (a task survives a SETCLUSTER iff it is unchanged)
+        Some(m) => format!("{}@{}~{}~{}~{}~{}", base, m.epoch, m.src_proxy_address, m.src_node_address, m.dst_proxy_address, m.dst_node_address),
+        None => base,
+    }
+}
+
 fn nodes_text(m: &[(String, Vec<SlotRange>)]) -> String {
     if m.is_empty() {
         return "-".to_string();
     }
     m.iter()
-        .map(|(a, srs)| {
-            format!(
-                "{}={}",
-                a,
-                srs.iter().map(|sr| format!("{}:{}", kind_of(sr), rl_text(&ranges_of(sr)))).collect::<Vec<_>>().join("/")
-            )
-        })
+        .map(|(a, srs)| format!("{}={}", a, srs.iter().map(sr_text).collect::<Vec<_>>().join("/")))
         .collect::<Vec<_>>()
         .join(";")
 }
@@ -633,6 +636,8 @@ struct World {
     shape: Result<Shape, String>,
     /// observed phase map (range list → state variant name)
     states: Vec<(Ranges, String)>,
+    /// accepted SETCLUSTERs on this proxy so far
+    installs: u64,
 }
 
 struct Run {
@@ -681,6 +686,7 @@ impl Run {
             es: vec![],
             shape: Err("nothing installed".to_string()),
             states: vec![],
+            installs: 0,
         };
         let line = format!("cfg v={} ar={} me={}", if cfg.v2 { 2 } else { 1 }, if cfg.ar { 1 } else { 0 }, cfg.me);
         self.op(&line, "ok");
@@ -696,6 +702,42 @@ impl Run {
                 return false;
             }
         };
+        // --- what `update_from_old_task_map` must do with the task map (harness' own reading) ---------
+        // key of a task = (cluster name, SlotRange with its MigrationMeta); a tagged local range whose key was
+        // there before keeps its task and phase, every other tagged local range gets a task in PreCheck
+        let old_keys: Vec<(String, SlotRange)> = self
+            .w
+            .im
+            .local
+            .iter()
+            .flat_map(|(_, srs)| srs.iter())
+            .filter(|sr| kind_of(sr) != 'N')
+            .map(|sr| (self.w.im.name.clone(), sr.clone()))
+            .collect();
+        let new_tagged: Vec<SlotRange> = im.local.iter().flat_map(|(_, srs)| srs.iter()).filter(|sr| kind_of(sr) != 'N').cloned().collect();
+        let mut expect_tasks: Vec<(Ranges, String, bool)> = vec![]; // (ranges, state, kept migrating: may have advanced)
+        let (mut n_kept, mut n_new) = (0, 0);
+        for sr in &new_tagged {
+            let kept = old_keys.iter().any(|(n, o)| *n == im.name && o == sr);
+            if kept {
+                n_kept += 1;
+                let st = self.state_of(&ranges_of(sr)).unwrap_or_else(|| "?".to_string());
+                expect_tasks.push((ranges_of(sr), st, kind_of(sr) == 'M'));
+            } else {
+                n_new += 1;
+                expect_tasks.push((ranges_of(sr), "PreCheck".to_string(), false));
+            }
+        }
+        let n_dropped = old_keys.iter().filter(|(n, o)| !(*n == im.name && new_tagged.contains(o))).count();
+        // gates of tasks that do not survive are reset (a later task with an equal key starts closed)
+        if let Ok(cn) = ClusterName::try_from(im.name.as_str()) {
+            let keep: HashSet<String> = new_tagged
+                .iter()
+                .filter(|sr| old_keys.iter().any(|(n, o)| *n == im.name && o == *sr))
+                .map(|sr| MigrationTaskMeta { cluster_name: cn.clone(), slot_range: sr.clone() }.into_strings().join(" "))
+                .collect();
+            self.w.proxy.gates.levels.lock().expect("gates").retain(|k, _| keep.contains(k));
+        }
         let mut cmd = vec!["UMCTL".to_string(), "SETCLUSTER".to_string()];
         cmd.extend(args);
         let r = self.w.proxy.run_strs(&cmd).await;
@@ -723,8 +765,56 @@ impl Run {
         // name is outside the property's hypotheses (theorem hypothesis `vw.name ≠ ""`)
         self.w.shape = if im.name.is_empty() { Err("empty cluster name".to_string()) } else { partition_shape(&self.w.es) };
         self.w.im = im;
-        self.w.states = vec![];
         self.s.stats.count(if self.w.shape.is_ok() { "meta.partition" } else { "meta.not_partition" });
+        // --- the task map right after the install ---------------------------------------------------
+        let got = match self.read_states().await {
+            Ok(g) => g,
+            Err(e) => {
+                self.fail(&e);
+                vec![]
+            }
+        };
+        let t = states_text(&got);
+        self.op("tasks", &t);
+        self.w.states = got.clone();
+        if self.w.installs > 0 {
+            self.flag("hist.reinstall");
+            if n_kept > 0 {
+                self.flag("hist.tasks_kept");
+            }
+            if n_new > 0 {
+                self.flag("hist.tasks_added");
+            }
+            if n_kept > 0 && n_new > 0 {
+                self.flag("hist.tasks_added_next_to_kept");
+            }
+            if n_dropped > 0 {
+                self.flag("hist.tasks_dropped");
+            }
+        }
+        self.w.installs += 1;
+        const ORDER: [&str; 6] = ["PreCheck", "PreBlocking", "PreSwitch", "Scanning", "FinalSwitch", "SwitchCommitted"];
+        let idx = |s: &str| ORDER.iter().position(|x| *x == s);
+        let mut exp_sorted = expect_tasks.clone();
+        exp_sorted.sort();
+        let mut ok = exp_sorted.len() == got.len();
+        if ok {
+            for ((er, es, may_advance), (gr, gs)) in exp_sorted.iter().zip(got.iter()) {
+                let same = er == gr && (es == gs || (*may_advance && idx(gs) >= idx(es) && idx(es).is_some()));
+                if !same {
+                    ok = false;
+                }
+            }
+        }
+        if !ok {
+            let e: Vec<(Ranges, String)> = exp_sorted.iter().map(|(r, s, _)| (r.clone(), s.clone())).collect();
+            let m = format!(
+                "task map after SETCLUSTER: every tagged local range must have a task (kept ones in their phase, new ones in PreCheck): expected {} got {}",
+                states_text(&e),
+                t
+            );
+            self.fail(&m);
+        }
         true
     }
 
@@ -1123,6 +1213,94 @@ struct Owner {
     node: usize,
 }
 
+#[derive(Clone)]
+struct Group {
+    ranges: Ranges,
+    owner: Owner,
+    /// `Some`: the group migrates to this owner
+    dest: Option<Owner>,
+    /// an uncompacted stable range list is written in descending order
+    rev: bool,
+}
+
+#[derive(Clone, Copy, PartialEq)]
+enum Stage {
+    /// the migration is not exposed yet: the range is stable at its source
+    Hidden,
+    Exposed,
+    /// the migration is committed: the range is stable at its destination
+    Committed,
+}
+
+struct Plan {
+    me: String,
+    name: String,
+    groups: Vec<Group>,
+    raw: bool,
+    compressed: bool,
+}
+
+impl Plan {
+    fn proxy_addr(&self, i: usize) -> String {
+        if i == 0 {
+            self.me.clone()
+        } else {
+            format!("10.0.{}.{}:{}", i / 200, i % 200 + 1, 5299 + (i % 3))
+        }
+    }
+    fn node_addr(&self, p: usize, n: usize) -> String {
+        if p == 0 {
+            format!("{}:{}", host_of(&self.me), 7000 + n)
+        } else {
+            format!("10.0.{}.{}:{}", p / 200, p % 200 + 1, 7000 + n)
+        }
+    }
+    /// `tagged`: a migrating / importing range list is always generated compacted. Uncompacted lists can
+    /// only arrive through the compressed (serde) form, which the broker never produces; for a *tagged*
+    /// range they break the real system before CLUSTER NODES is reached (observations in notes/C14.md):
+    /// a descending list panics in RangeMap::from ("capacity overflow") when the task is created, and any
+    /// list that `RangeList::parse` would change never finds its task in the textual UMCTL handshake
+    /// (TASK_NOT_FOUND), so no phase can be driven.
+    fn mk_rl(&self, g: &Group, tagged: bool) -> RangeList {
+        if self.raw && !tagged {
+            let mut v = g.ranges.clone();
+            // uncompacted: adjacent ranges not merged, possibly descending; reversed bounds are *not*
+            // used (they would not cover the slots)
+            if g.rev {
+                v.reverse();
+            }
+            raw_range_list(&v)
+        } else {
+            compact_range_list(&g.ranges)
+        }
+    }
+    fn render(&self, stages: &[Stage]) -> MetaSpec {
+        let mut local: HashMap<String, Vec<SlotRange>> = HashMap::new();
+        let mut peer: HashMap<String, Vec<SlotRange>> = HashMap::new();
+        let mut put = |o: &Owner, sr: SlotRange| {
+            if o.proxy == 0 {
+                local.entry(self.node_addr(0, o.node)).or_default().push(sr);
+            } else {
+                peer.entry(self.proxy_addr(o.proxy)).or_default().push(sr);
+            }
+        };
+        for (g, st) in self.groups.iter().zip(stages.iter()) {
+            match (&g.dest, st) {
+                (None, _) | (Some(_), Stage::Hidden) => put(&g.owner, SlotRange { range_list: self.mk_rl(g, false), tag: SlotRangeTag::None }),
+                (Some(d), Stage::Committed) => put(d, SlotRange { range_list: self.mk_rl(g, false), tag: SlotRangeTag::None }),
+                (Some(d), Stage::Exposed) => {
+                    let o = &g.owner;
+                    let meta = mk_meta(1, &self.proxy_addr(o.proxy), &self.node_addr(o.proxy, o.node), &self.proxy_addr(d.proxy), &self.node_addr(d.proxy, d.node));
+                    let rl = self.mk_rl(g, true);
+                    put(o, SlotRange { range_list: rl.clone(), tag: SlotRangeTag::Migrating(meta.clone()) });
+                    put(d, SlotRange { range_list: rl, tag: SlotRangeTag::Importing(meta) });
+                }
+            }
+        }
+        MetaSpec { name: self.name.clone(), local, peer, compressed: self.compressed, min_epoch: 0 }
+    }
+}
+
 impl Gen {
     /// cut 0..16383 into `n` non-empty consecutive segments
     fn cuts(&mut self, n: usize, stats: &mut Stats) -> Vec<(usize, usize)> {
@@ -1151,74 +1329,48 @@ impl Gen {
         segs
     }
 
-    /// a hand-built meta with the partition property, seen from proxy 0
-    fn partition_meta(&mut self, stats: &mut Stats, me: &str, force_role: u64) -> MetaSpec {
+    /// a hand-built layout with the partition property, seen from proxy 0: slot groups with an owner and,
+    /// for some, a migration to another proxy. `hist`: the first two groups are migrations in which the same
+    /// local node takes part in the forced role (so that one install can add a task next to a kept one).
+    fn partition_plan(&mut self, stats: &mut Stats, me: &str, force_role: u64, hist: bool) -> Plan {
         let rng = &mut self.rng;
-        let n_proxies = 1 + rng.below(5) as usize + if force_role == 2 { 2 } else { 0 };
-        let proxy_addr = |i: usize| if i == 0 { me.to_string() } else { format!("10.0.{}.{}:{}", i / 200, i % 200 + 1, 5299 + (i % 3)) };
-        let host = host_of(me);
-        let node_addr = |p: usize, n: usize| if p == 0 { format!("{}:{}", host, 7000 + n) } else { format!("10.0.{}.{}:{}", p / 200, p % 200 + 1, 7000 + n) };
+        let n_proxies = 1 + rng.below(5) as usize + if force_role == 2 { 2 } else { 0 } + if hist { 1 } else { 0 };
         let nodes_per: Vec<usize> = (0..n_proxies).map(|_| 1 + rng.below(2) as usize).collect();
         let owners: Vec<Owner> = (0..n_proxies).flat_map(|p| (0..nodes_per[p]).map(move |n| Owner { proxy: p, node: n })).collect();
-        let n_segs = 1 + rng.below(14) as usize;
+        let n_segs = 1 + rng.below(14) as usize + if hist { 3 } else { 0 };
         let segs = {
             let mut g = Gen { rng: rng.fork() };
             g.cuts(n_segs, stats)
         };
         // group segments into range lists: each group has one owner
-        let n_groups = 1 + rng.below(segs.len() as u64) as usize;
-        let mut groups: Vec<Ranges> = vec![vec![]; n_groups];
+        let n_groups = (1 + rng.below(segs.len() as u64) as usize).max(if hist { 3 } else { 1 }).min(segs.len());
+        let mut granges: Vec<Ranges> = vec![vec![]; n_groups];
         for (i, s) in segs.iter().enumerate() {
             let g = if i < n_groups { i } else { rng.below(n_groups as u64) as usize };
-            groups[g].push(*s);
+            granges[g].push(*s);
         }
         let raw = rng.chance(1, 6);
         if raw {
             stats.count("gen.meta.raw_range_lists");
         }
-        // `tagged`: a migrating / importing range list is always generated compacted. Uncompacted lists can
-        // only arrive through the compressed (serde) form, which the broker never produces; for a *tagged*
-        // range they break the real system before CLUSTER NODES is reached (observations in notes/C14.md):
-        // a descending list panics in RangeMap::from ("capacity overflow") when the task is created, and any
-        // list that `RangeList::parse` would change never finds its task in the textual UMCTL handshake
-        // (TASK_NOT_FOUND), so no phase can be driven.
-        let mk_rl = |rs: &Ranges, rng: &mut Rng, tagged: bool| -> RangeList {
-            if raw && !tagged {
-                let mut v = rs.clone();
-                // uncompacted: adjacent ranges not merged, possibly descending; reversed bounds are *not*
-                // used (they would not cover the slots)
-                if rng.chance(1, 2) {
-                    v.reverse();
-                }
-                raw_range_list(&v)
-            } else {
-                compact_range_list(rs)
-            }
-        };
-        let mut local: HashMap<String, Vec<SlotRange>> = HashMap::new();
-        let mut peer: HashMap<String, Vec<SlotRange>> = HashMap::new();
-        let mut put = |o: &Owner, sr: SlotRange, local: &mut HashMap<String, Vec<SlotRange>>, peer: &mut HashMap<String, Vec<SlotRange>>| {
-            if o.proxy == 0 {
-                local.entry(node_addr(0, o.node)).or_default().push(sr);
-            } else {
-                peer.entry(proxy_addr(o.proxy)).or_default().push(sr);
-            }
-        };
+        let mut groups = vec![];
         let mut roles: BTreeSet<&'static str> = BTreeSet::new();
-        for (gi, g) in groups.iter().enumerate() {
+        for (gi, g) in granges.iter().enumerate() {
+            let forced = gi == 0 || (hist && gi == 1);
             let mut o = rng.pick(&owners).clone();
-            let migrating = owners.len() > 1 && (rng.chance(2, 5) || (gi == 0 && force_role < 3));
+            let rev = rng.chance(1, 2);
+            let migrating = owners.len() > 1 && (rng.chance(2, 5) || (forced && force_role < 3));
             if !migrating {
-                let rl = mk_rl(g, rng, false);
-                put(&o, SlotRange { range_list: rl, tag: SlotRangeTag::None }, &mut local, &mut peer);
+                groups.push(Group { ranges: g.clone(), owner: o, dest: None, rev });
                 continue;
             }
             let mut d = rng.pick(&owners).clone();
-            if gi == 0 {
-                // make sure the wanted role occurs
+            if forced {
+                // make sure the wanted role occurs (in a history: twice on the same local node)
+                let me0 = Owner { proxy: 0, node: 0 };
                 match force_role {
-                    0 => o = owners.iter().find(|x| x.proxy == 0).cloned().unwrap_or(o),
-                    1 => d = owners.iter().find(|x| x.proxy == 0).cloned().unwrap_or(d),
+                    0 => o = me0,
+                    1 => d = me0,
                     2 => {
                         o = owners.iter().find(|x| x.proxy == 1).cloned().unwrap_or(o);
                         d = owners.iter().find(|x| x.proxy == 2).cloned().unwrap_or(d);
@@ -1228,19 +1380,20 @@ impl Gen {
             }
             let mut guard = 0;
             while d.proxy == o.proxy && guard < 20 {
-                d = rng.pick(&owners).clone();
+                let c = rng.pick(&owners).clone();
+                if forced && force_role == 1 {
+                    o = c;
+                } else {
+                    d = c;
+                }
                 guard += 1;
             }
             if d.proxy == o.proxy {
-                let rl = mk_rl(g, rng, false);
-                put(&o, SlotRange { range_list: rl, tag: SlotRangeTag::None }, &mut local, &mut peer);
+                groups.push(Group { ranges: g.clone(), owner: o, dest: None, rev });
                 continue;
             }
             roles.insert(if o.proxy == 0 { "source" } else if d.proxy == 0 { "destination" } else { "bystander" });
-            let meta = mk_meta(1, &proxy_addr(o.proxy), &node_addr(o.proxy, o.node), &proxy_addr(d.proxy), &node_addr(d.proxy, d.node));
-            let rl = mk_rl(g, rng, true);
-            put(&o, SlotRange { range_list: rl.clone(), tag: SlotRangeTag::Migrating(meta.clone()) }, &mut local, &mut peer);
-            put(&d, SlotRange { range_list: rl, tag: SlotRangeTag::Importing(meta) }, &mut local, &mut peer);
+            groups.push(Group { ranges: g.clone(), owner: o, dest: Some(d), rev });
         }
         for r in roles {
             stats.count(&format!("gen.role.{}", r));
@@ -1255,7 +1408,47 @@ impl Gen {
         let compressed = raw || rng.chance(1, 3);
         stats.count(if compressed { "gen.meta.compressed" } else { "gen.meta.textual" });
         stats.count(&format!("gen.meta.proxies.{}", n_proxies.min(6)));
-        MetaSpec { name, local, peer, compressed, min_epoch: 0 }
+        Plan { me: me.to_string(), name, groups, raw, compressed }
+    }
+
+    fn partition_meta(&mut self, stats: &mut Stats, me: &str, force_role: u64) -> MetaSpec {
+        let plan = self.partition_plan(stats, me, force_role, false);
+        let stages = vec![Stage::Exposed; plan.groups.len()];
+        plan.render(&stages)
+    }
+
+    /// 2-4 successive metas of one layout: every migration is hidden (still stable at its source), then
+    /// exposed, then committed (stable at its destination) — what the broker's migration limit and the
+    /// commits of finished migrations make a proxy see. The first two migrations share a local node: one of
+    /// them runs through the whole history, the other is exposed by a later install.
+    fn partition_history(&mut self, stats: &mut Stats, me: &str, force_role: u64) -> Vec<MetaSpec> {
+        let plan = self.partition_plan(stats, me, force_role, true);
+        let rng = &mut self.rng;
+        let n = 2 + rng.below(3) as usize;
+        let swap = rng.chance(1, 2);
+        let mut windows: Vec<(usize, usize)> = vec![];
+        for gi in 0..plan.groups.len() {
+            let w = if gi <= 1 {
+                // (kept through the history) / (added by a later install), in either order of the node's list
+                if (gi == 0) != swap {
+                    (0, n + 1)
+                } else {
+                    let st = 1 + rng.below(n as u64 - 1) as usize;
+                    (st, st + 1 + rng.below((n - st + 1) as u64) as usize)
+                }
+            } else {
+                let st = rng.below(n as u64) as usize;
+                (st, st + 1 + rng.below((n - st + 1) as u64) as usize)
+            };
+            windows.push(w);
+        }
+        stats.count(&format!("gen.hist.len.{}", n));
+        (0..n)
+            .map(|k| {
+                let stages: Vec<Stage> = windows.iter().map(|(st, en)| if k < *st { Stage::Hidden } else if k < *en { Stage::Exposed } else { Stage::Committed }).collect();
+                plan.render(&stages)
+            })
+            .collect()
     }
 
     /// perturb a partition meta so that the partition property (usually) no longer holds
@@ -1354,7 +1547,8 @@ impl Gen {
 
     /// a view served by the real broker for one proxy of a cluster that is (usually) mid-migration;
     /// returns (announce address, meta, epoch of the view)
-    fn broker_meta(&mut self, stats: &mut Stats) -> Option<(String, MetaSpec)> {
+    /// returns the announce address and 1-4 successive views of that proxy (what a long-lived proxy is sent)
+    fn broker_meta(&mut self, stats: &mut Stats) -> Option<(String, Vec<MetaSpec>)> {
         let rng = &mut self.rng;
         let mut st = MetaStore::new(false);
         let n_proxies = 6 + 2 * rng.below(4) as usize;
@@ -1432,23 +1626,86 @@ impl Gen {
         let addrs: BTreeSet<String> = c.get_nodes().iter().map(|n| n.get_proxy_address().to_string()).collect();
         let addrs: Vec<String> = addrs.into_iter().collect();
         let me = rng.pick(&addrs).clone();
-        let limit = *rng.pick(&[1u64, 2, 100, 100]);
-        let p: Proxy = st.get_proxy_by_address(&me, limit)?;
-        let p_epoch = p.get_epoch();
-        // what the coordinator sends (generate_proxy_meta_cmd_args)
-        let mut peer: HashMap<String, Vec<SlotRange>> = HashMap::new();
-        for pp in p.get_peers().iter() {
-            peer.insert(pp.proxy_address.clone(), pp.slots.clone());
-        }
-        let mut local: HashMap<String, Vec<SlotRange>> = HashMap::new();
-        for n in p.get_nodes() {
-            local.insert(n.get_address().to_string(), n.get_slots().to_vec());
-        }
+        let limit = *rng.pick(&[1u64, 1, 2, 100]);
+        let compressed = rng.chance(1, 2);
+        // what the coordinator sends (filter_proxy_masters + generate_proxy_meta_cmd_args)
+        let view = |st: &MetaStore| -> Option<MetaSpec> {
+            let p: Proxy = st.get_proxy_by_address(&me, limit)?;
+            if p.get_cluster_name().map(|n| n.to_string()) != Some(name.clone()) {
+                return None; // removed from the cluster by a scale-down
+            }
+            let p_epoch = p.get_epoch();
+            let mut peer: HashMap<String, Vec<SlotRange>> = HashMap::new();
+            for pp in p.get_peers().iter() {
+                peer.insert(pp.proxy_address.clone(), pp.slots.clone());
+            }
+            let mut local: HashMap<String, Vec<SlotRange>> = HashMap::new();
+            for n in p.get_nodes().iter().filter(|n| n.get_role() == Role::Master) {
+                local.insert(n.get_address().to_string(), n.get_slots().to_vec());
+            }
+            Some(MetaSpec { name: name.clone(), local, peer, compressed, min_epoch: p_epoch })
+        };
         let migrating = c.get_nodes().iter().any(|n| n.get_slots().iter().any(|s| !matches!(s.tag, SlotRangeTag::None)));
         stats.count(if migrating { "gen.broker.view_migrating" } else { "gen.broker.view_stable" });
+        let mut metas = vec![view(&st)?];
+        // the rest of the history: commit some of the migrations this limit exposes (the next ones get exposed
+        // with a later epoch while the uncommitted ones keep running), fail a proxy over, start the next scaling
+        let more = if migrating { rng.below(4) } else { rng.below(2) };
+        for _ in 0..more {
+            let mut did = None;
+            match rng.below(5) {
+                0 | 1 | 2 => {
+                    if let Some(c) = st.get_cluster_by_name(&name, limit) {
+                        let mut tasks = vec![];
+                        for n in c.get_nodes() {
+                            for sr in n.get_slots() {
+                                if matches!(sr.tag, SlotRangeTag::Migrating(_)) {
+                                    tasks.push(MigrationTaskMeta { cluster_name: c.get_name().clone(), slot_range: sr.clone() });
+                                }
+                            }
+                        }
+                        let mut done = 0;
+                        for t in tasks {
+                            if rng.chance(1, 2) && st.commit_migration(t, false).is_ok() {
+                                done += 1;
+                            }
+                        }
+                        if done > 0 {
+                            did = Some("commit");
+                        }
+                    }
+                }
+                3 => {
+                    if let Some(c) = st.get_cluster_by_name(&name, 100) {
+                        let addrs: BTreeSet<String> = c.get_nodes().iter().map(|n| n.get_proxy_address().to_string()).filter(|a| *a != me).collect();
+                        let addrs: Vec<String> = addrs.into_iter().collect();
+                        if !addrs.is_empty() {
+                            let a = rng.pick(&addrs).clone();
+                            if st.replace_failed_proxy(a, 100).is_ok() {
+                                did = Some("failover");
+                            }
+                        }
+                    }
+                }
+                _ => {
+                    if st.auto_add_nodes(name.clone(), 4).is_ok() && st.migrate_slots(name.clone()).is_ok() {
+                        did = Some("scaleout4");
+                    }
+                }
+            }
+            if let Some(d) = did {
+                match view(&st) {
+                    Some(m) => {
+                        hist.push(format!(">{}", d));
+                        metas.push(m);
+                    }
+                    None => break,
+                }
+            }
+        }
         stats.count(&format!("gen.broker.hist.{}", hist.join("+")));
-        let compressed = rng.chance(1, 2);
-        Some((me, MetaSpec { name, local, peer, compressed, min_epoch: p_epoch }))
+        stats.count(&format!("gen.broker.installs.{}", metas.len()));
+        Some((me, metas))
     }
 }
 
@@ -1480,7 +1737,7 @@ fn probe_slots(rng: &mut Rng, es: &[Entry], n_random: usize) -> Vec<usize> {
 /// phase targets for the local tasks: `step` 0 = everything in PreCheck, later steps move forward.
 /// The SCAN gate is per source node and can only be opened: with an open gate no task of the node rests
 /// in Scanning, with a closed one none passes it.
-fn pick_targets(rng: &mut Rng, es: &[Entry], prev: &BTreeMap<Ranges, String>, step: usize) -> BTreeMap<Ranges, String> {
+fn pick_targets(rng: &mut Rng, es: &[Entry], prev: &BTreeMap<Ranges, String>, step: usize, open_nodes: &HashSet<String>) -> BTreeMap<Ranges, String> {
     const SRC: [&str; 5] = ["PreCheck", "PreSwitch", "Scanning", "FinalSwitch", "SwitchCommitted"];
     const DST: [&str; 3] = ["PreCheck", "PreSwitch", "SwitchCommitted"];
     let cur_idx = |e: &Entry| -> usize {
@@ -1490,8 +1747,9 @@ fn pick_targets(rng: &mut Rng, es: &[Entry], prev: &BTreeMap<Ranges, String>, st
     let node_of = |e: &Entry| e.sr.tag.get_migration_meta().map(|m| m.src_node_address.clone()).unwrap_or_default();
     let mut scan_open: BTreeMap<String, bool> = BTreeMap::new();
     for e in es.iter().filter(|e| e.local && e.kind == 'M') {
+        // a gate opened for an earlier task of the node (possibly dropped since) stays open
         let ent = scan_open.entry(node_of(e)).or_insert(false);
-        *ent = *ent || cur_idx(e) >= 3;
+        *ent = *ent || cur_idx(e) >= 3 || open_nodes.contains(&node_of(e));
     }
     for (_, open) in scan_open.iter_mut() {
         if !*open {
@@ -1546,6 +1804,7 @@ fn main() {
                 es: vec![],
                 shape: Err("nothing installed".to_string()),
                 states: vec![],
+                installs: 0,
             },
             case: 0,
             case_ops: vec![],
@@ -1567,9 +1826,10 @@ fn main() {
                         run.do_cfg(Cfg { v2: v(toks[1]) != "1", ar: v(toks[2]) == "1", me: v(toks[3]) }).await;
                     }
                     "install" if toks.len() == 5 => {
-                        if let Some(spec) = replay_spec(&run.w.cfg.me, toks[1], toks[3], toks[4]) {
-                            // the line's epoch is informational: the harness numbers installs itself
-                            run.do_install(&spec).await;
+                        if let Some(mut spec) = replay_spec(&run.w.cfg.me, toks[1], toks[3], toks[4]) {
+                            // keep the line's epoch when it is usable (the harness never goes backwards)
+                            spec.min_epoch = spec.min_epoch.max(toks[2].parse().unwrap_or(0));
+                            run.do_install(&spec).await; // emits `install` and `tasks`
                         } else {
                             run.s.stats.count("replay.bad_install_line");
                         }
@@ -1588,7 +1848,7 @@ fn main() {
                         run.do_phases(&t).await;
                     }
                     "nodes" => run.do_nodes_slots().await, // emits `nodes` and `slots`
-                    "slots" => {}
+                    "slots" | "tasks" => {}
                     "probe" => {
                         if let Some(s) = toks.get(1).and_then(|t| t.parse().ok()) {
                             run.do_probes(&[s]).await;
@@ -1614,17 +1874,20 @@ fn main() {
             };
             run.s.stats.count(&format!("gen.class.{}", class));
             let mut me = if rng.chance(1, 5) { format!("127.0.0.{}:{}", 1 + rng.below(3), 5000 + rng.below(1000)) } else { "127.0.0.1:5299".to_string() };
-            let spec: Option<MetaSpec> = match class {
-                "partition" => Some(gen.partition_meta(&mut run.s.stats, &me, ci as u64 / 10 % 4)),
-                "odd" => Some(gen.odd_meta(&mut run.s.stats, &me)),
+            // 1-4 successive SETCLUSTERs for the same (long-lived) proxy process
+            let history = rng.chance(1, 2);
+            let specs: Vec<MetaSpec> = match class {
+                "partition" if history => gen.partition_history(&mut run.s.stats, &me, ci as u64 / 10 % 4),
+                "partition" => vec![gen.partition_meta(&mut run.s.stats, &me, ci as u64 / 10 % 4)],
+                "odd" => vec![gen.odd_meta(&mut run.s.stats, &me)],
                 "broker" => match gen.broker_meta(&mut run.s.stats) {
                     Some((a, m)) => {
                         me = a;
-                        Some(m)
+                        m
                     }
-                    None => None,
+                    None => vec![],
                 },
-                _ => None,
+                _ => vec![],
             };
             let cfg = Cfg { v2: rng.chance(1, 2), ar: class != "odd" && rng.chance(1, 6), me: me.clone() };
             run.do_cfg(cfg).await;
@@ -1633,31 +1896,44 @@ fn main() {
                 run.do_nodes_slots().await;
                 run.do_probes(&[0, 77]).await;
             }
-            let spec = match spec {
-                Some(s) => s,
-                None => continue,
-            };
-            if !run.do_install(&spec).await {
-                continue;
+            if specs.len() > 1 {
+                run.s.stats.count("gen.history");
             }
-            let has_tasks = run.w.es.iter().any(|e| e.local && e.kind != 'N');
-            let steps = if has_tasks { 2 + rng.below(3) as usize } else { 1 };
-            let mut targets: BTreeMap<Ranges, String> = BTreeMap::new();
-            for step in 0..steps {
-                targets = pick_targets(&mut rng, &run.w.es, &targets, step);
-                run.do_phases(&targets).await;
-                // the targets actually reached (a task may have been carried along)
-                targets = run.w.states.iter().cloned().collect();
+            let n_specs = specs.len();
+            let mut last_spec: Option<MetaSpec> = None;
+            for (k, spec) in specs.iter().enumerate() {
+                if !run.do_install(spec).await {
+                    break;
+                }
+                last_spec = Some(spec.clone());
+                // the advertisement right after the install: kept tasks in their phase, new ones in PreCheck
                 run.do_nodes_slots().await;
-                let ps = probe_slots(&mut rng, &run.w.es, if thorough { 12 } else { 6 });
+                let ps = probe_slots(&mut rng, &run.w.es, if thorough { 8 } else { 4 });
                 run.do_probes(&ps).await;
-            }
-            // re-install the same meta under a new epoch: running tasks and their phases are kept
-            if has_tasks && rng.chance(1, 3) {
-                run.s.stats.count("gen.reinstall_same_meta");
-                if run.do_install(&spec).await {
+                let has_tasks = run.w.es.iter().any(|e| e.local && e.kind != 'N');
+                if !has_tasks {
+                    continue;
+                }
+                // then move the tasks on through the real handshake (fewer phase points inside a history)
+                let steps = if n_specs > 1 && k + 1 < n_specs { rng.below(3) as usize } else { 1 + rng.below(3) as usize };
+                for step in 0..steps {
+                    let prev: BTreeMap<Ranges, String> = run.w.states.iter().cloned().collect();
+                    let open_nodes: HashSet<String> = run.w.proxy.gates.scan_open.lock().expect("gates").clone();
+                    let targets = pick_targets(&mut rng, &run.w.es, &prev, step + 1, &open_nodes);
                     run.do_phases(&targets).await;
                     run.do_nodes_slots().await;
+                    let ps = probe_slots(&mut rng, &run.w.es, if thorough { 12 } else { 6 });
+                    run.do_probes(&ps).await;
+                }
+            }
+            // re-install the same meta under a new epoch: running tasks and their phases are kept
+            if let Some(spec) = last_spec {
+                let has_tasks = run.w.es.iter().any(|e| e.local && e.kind != 'N');
+                if has_tasks && rng.chance(1, 3) {
+                    run.s.stats.count("gen.reinstall_same_meta");
+                    if run.do_install(&spec).await {
+                        run.do_nodes_slots().await;
+                    }
                 }
             }
             let f = &run.flags;
@@ -1672,7 +1948,7 @@ fn main() {
             }
         }
         run.w.proxy.gates.all_open.store(true, std::sync::atomic::Ordering::SeqCst);
-        run.s.finish("nodes", "cases = proxy config (NODES format V1/V2, active redirection, announce address) x meta (hand-built partitions with 1-8 proxies seen as source / destination / bystander, views served by the real broker MetaStore after scale-out / partial commits / scale-down / failover, perturbed metas: gaps, overlaps, orphan or duplicate tags, malformed addresses, uncompacted / out-of-space / empty range lists, slot-less nodes; textual and compressed SETCLUSTER) x 1-4 phase points driven through the real handshake (source: PreCheck, PreSwitch, Scanning, FinalSwitch, SwitchCommitted; destination: PreCheck, PreSwitch, SwitchCommitted) x NODES + SLOTS + routing probes at every range boundary; non-trivial case = a partition-shaped meta with a migrating range and a stable range whose advertisement was checked for all 16384 slots and confirmed by routing probes; distinct = distinct (config, installed meta, final phase map)");
+        run.s.finish("nodes", "cases = proxy config (NODES format V1/V2, active redirection, announce address) x meta (hand-built partitions with 1-8 proxies seen as source / destination / bystander, views served by the real broker MetaStore after scale-out / partial commits / scale-down / failover, perturbed metas: gaps, overlaps, orphan or duplicate tags, malformed addresses, uncompacted / out-of-space / empty range lists, slot-less nodes; textual and compressed SETCLUSTER) x install histories on the same proxy process (1-4 successive SETCLUSTERs: migrations hidden by the migration limit, exposed later next to running ones, committed; the task map after every install is checked: kept tasks in their phase, new ones in PreCheck, none missing) x 0-3 phase points per install driven through the real handshake (source: PreCheck, PreSwitch, Scanning, FinalSwitch, SwitchCommitted; destination: PreCheck, PreSwitch, SwitchCommitted) x NODES + SLOTS + routing probes at every range boundary; non-trivial case = a partition-shaped meta with a migrating range and a stable range whose advertisement was checked for all 16384 slots and confirmed by routing probes; distinct = distinct (config, last installed meta, final phase map)");
     });
 }
 
@@ -1688,10 +1964,11 @@ fn parse_rl(s: &str) -> Option<Ranges> {
         .collect()
 }
 
-/// rebuild a meta from an `install` op line; migration metas are synthesised: a migrating range points
-/// at the holder of the importing range with the same range list (and vice versa)
+/// rebuild a meta from an `install` op line; a tagged range without `@meta` (old corpus lines) gets a
+/// synthesised migration meta: a migrating range points at the holder of the importing range with the same
+/// range list (and vice versa)
 fn replay_spec(me: &str, name: &str, local: &str, peer: &str) -> Option<MetaSpec> {
-    type Raw = Vec<(String, Vec<(char, Ranges)>)>;
+    type Raw = Vec<(String, Vec<(char, Ranges, Option<MigrationMeta>)>)>;
     let parse = |s: &str| -> Option<Raw> {
         if s == "-" {
             return Some(vec![]);
@@ -1702,8 +1979,18 @@ fn replay_spec(me: &str, name: &str, local: &str, peer: &str) -> Option<MetaSpec
             let mut l = vec![];
             if !srs.is_empty() {
                 for sr in srs.split('/') {
-                    let (k, rl) = sr.split_once(':')?;
-                    l.push((k.chars().next()?, parse_rl(rl)?));
+                    let (k, rest) = sr.split_once(':')?;
+                    let (rl, meta) = match rest.split_once('@') {
+                        Some((rl, m)) => {
+                            let f: Vec<&str> = m.split('~').collect();
+                            if f.len() != 5 {
+                                return None;
+                            }
+                            (rl, Some(mk_meta(f[0].parse().ok()?, f[1], f[2], f[3], f[4])))
+                        }
+                        None => (rest, None),
+                    };
+                    l.push((k.chars().next()?, parse_rl(rl)?, meta));
                 }
             }
             v.push((a.to_string(), l));
@@ -1715,25 +2002,31 @@ fn replay_spec(me: &str, name: &str, local: &str, peer: &str) -> Option<MetaSpec
     // (proxy address, node address) of the holder of a tagged range list
     let holder = |kind: char, rs: &Ranges| -> (String, String) {
         for (a, l) in &lo {
-            if l.iter().any(|(k, r)| *k == kind && r == rs) {
+            if l.iter().any(|(k, r, _)| *k == kind && r == rs) {
                 return (me.to_string(), a.clone());
             }
         }
         for (a, l) in &pe {
-            if l.iter().any(|(k, r)| *k == kind && r == rs) {
+            if l.iter().any(|(k, r, _)| *k == kind && r == rs) {
                 return (a.clone(), format!("{}:7000", host_of(a)));
             }
         }
         ("10.255.255.254:5299".to_string(), "10.255.255.254:7000".to_string())
     };
-    let build = |m: &Raw| -> HashMap<String, Vec<SlotRange>> {
+    let mut min_epoch = 0;
+    let mut build = |m: &Raw| -> HashMap<String, Vec<SlotRange>> {
         let mut out = HashMap::new();
         for (a, l) in m {
             let mut v = vec![];
-            for (k, rs) in l {
-                let (sp, sn) = holder('M', rs);
-                let (dp, dn) = holder('I', rs);
-                let meta = mk_meta(1, &sp, &sn, &dp, &dn);
+            for (k, rs, meta) in l {
+                let meta = meta.clone().unwrap_or_else(|| {
+                    let (sp, sn) = holder('M', rs);
+                    let (dp, dn) = holder('I', rs);
+                    mk_meta(1, &sp, &sn, &dp, &dn)
+                });
+                if *k != 'N' {
+                    min_epoch = min_epoch.max(meta.epoch);
+                }
                 let tag = match k {
                     'M' => SlotRangeTag::Migrating(meta),
                     'I' => SlotRangeTag::Importing(meta),
@@ -1745,5 +2038,6 @@ fn replay_spec(me: &str, name: &str, local: &str, peer: &str) -> Option<MetaSpec
         }
         out
     };
-    Some(MetaSpec { name: if name == "-" { String::new() } else { name.to_string() }, local: build(&lo), peer: build(&pe), compressed: true, min_epoch: 0 })
+    let (l, p) = (build(&lo), build(&pe));
+    Some(MetaSpec { name: if name == "-" { String::new() } else { name.to_string() }, local: l, peer: p, compressed: true, min_epoch })
 }
